@@ -249,8 +249,36 @@ def api_worker(args):
     return (terms, infos), res.hist, res.counts, res.samples
 
 
+CONVERTER_SPEC = ('<start> ::= <enc>\n<enc> ::= <digit>+ := str(int(<raw>) * 2)\n<raw> ::= <digit>+ := str(int(<enc>) // 2)\n'
+                  '<digit> ::= "0" | "1" | "2" | "3" | "4" | "5" | "6" | "7" | "8" | "9"\nwhere int(<raw>) > 5\n')
+
+
+def api_converter_probe(res):
+    """a constraint on a nonterminal that exists only as a generator argument (derived through a converter when parsing):
+    the API must judge it on the tree WITH its derived arguments.  Oracle: plain arithmetic."""
+    from fandango import Fandango
+    fan = Fandango(CONVERTER_SPEC)
+    rng = random.Random(res.seed + 77)
+    words = [str(i) for i in range(0, 16)] + ["007", "020"] + [str(rng.randrange(0, 400)) for _ in range(12)]
+    for w in words:
+        want = int(w) // 2 > 5
+        try:
+            got = any(str(t) == w for t in common.guarded(lambda: list(fan.parse(w)), 10))
+        except common.ImplTimeout:
+            continue
+        except Exception:
+            got = False
+        res.count(("api-converter", w), nontrivial=True)
+        res.bump("api_converter_words")
+        if got != want and len(res.violations) < 3:
+            res.violation("Fandango.parse() " + ("yields a tree for an input outside" if got else "yields no tree for an input inside") +
+                          " the constrained language (constraint on a generator argument derived by a converter)",
+                          {"spec": CONVERTER_SPEC, "word": w, "raw_derived_by_converter": int(w) // 2, "constraint": "int(<raw>) > 5"})
+
+
 def api_clause(res):
     from props import c02
+    api_converter_probe(res)
     W = 14
     n = 56 if res.tier == "quick" else 500
     terms, infos = c02.parallel(res, api_worker, [(res.seed * 1000 + 700 + w, max(1, n // W)) for w in range(W)])
